@@ -138,6 +138,7 @@ CHECKS = {
             plain("sweep", "^TestC06Sweep$"),
             rapid("terminal", "^TestC06Terminal$", 5000, 3),
             rapid("syncinflight", "^TestC06SyncInFlight$", 1500, 1),
+            rapid("build", "^TestC06Build$", 4000, 1),
             rapid("child", "^TestC06Child$", 60, 2),
         ],
         "thorough": [
@@ -145,6 +146,7 @@ CHECKS = {
             plain("sweep", "^TestC06Sweep$"),
             rapid("terminal", "^TestC06Terminal$", 60000, 12, timeout=3000),
             rapid("syncinflight", "^TestC06SyncInFlight$", 20000, 4, timeout=3000),
+            rapid("build", "^TestC06Build$", 100000, 4, timeout=3000),
             rapid("child", "^TestC06Child$", 200, 12, timeout=3000),
         ],
     },
